@@ -636,7 +636,7 @@ func isolated(raw json.RawMessage, k *c05Case) map[string]any {
 	ctx, cancel := context.WithTimeout(context.Background(), 5*time.Minute)
 	defer cancel()
 	cmd := exec.CommandContext(ctx, os.Args[0])
-	cmd.Env = append(os.Environ(), "C05_CHILD=1")
+	cmd.Env = append(os.Environ(), "C05_CHILD=1", "GOTRACEBACK=none")
 	cmd.Stdin = bytes.NewReader(raw)
 	var stdout, stderr bytes.Buffer
 	cmd.Stdout, cmd.Stderr = &stdout, &stderr
@@ -655,7 +655,7 @@ func isolated(raw json.RawMessage, k *c05Case) map[string]any {
 }
 
 func child() {
-	debug.SetMaxStack(64 << 20) // die early and cheaply on unbounded recursion
+	debug.SetMaxStack(16 << 20) // die early and cheaply on unbounded recursion
 	var k c05Case
 	drv.Must(json.NewDecoder(os.Stdin).Decode(&k))
 	drv.Must(json.NewEncoder(os.Stdout).Encode(showCase(&k)))
@@ -728,6 +728,8 @@ type Node struct {
 // not in the table: self-referencing pointers, maps and slices overflow the goroutine stack in showInJS/showInJSON.
 func showValue(name string) (any, bool) {
 	switch name {
+	case "nil_interface": // the global has type any in both boxes
+		return nil, true
 	case "embed_unexported":
 		return Item{base{1}, "n"}, true
 	case "embed_unexported_ptr":
@@ -851,7 +853,7 @@ func showCase(k *c05Case) map[string]any {
 		return o
 	}
 	var decl any
-	if k.Box == "any" {
+	if k.Box == "any" || val == nil {
 		x := val
 		decl = &x
 	} else {
